@@ -34,14 +34,15 @@ LEVEL_TEXT = (
     "blocking: sum, prod, any, all, mean as (total,n), min/max with dask's empty-chunk rule (min_eq_numpy, "
     "max_eq_numpy), argmin/argmax returning the FIRST flat index of the extremum (argmin_eq_numpy_all, "
     "argmax_eq_numpy_all: 1-d / raveled order, empty blocks included — the code after the arg_chunk fix), top-k (topk_eq_sort_take: the k largest / -k smallest of the whole "
-    "array); multi-axis reductions: gridReduce_eq_fold / sum_nd_eq_numpy / prod_nd_eq_numpy — for a commutative monoid, "
+    "array); multi-axis reductions: gridReduce_eq_fold / sum_nd_eq_numpy / prod_nd_eq_numpy / any_nd / all_nd / mean_nd_eq_numpy / "
+    "min_nd_eq_numpy / max_nd_eq_numpy (min/max through gridReduce_mapGrid: the tree commutes with the embedding Option Int → 0/1-element partial, empty blocks included) — for a commutative monoid, "
     "every grid of blocks, every per-axis split_every and every depth with n_i ≤ k_i^depth the n-d partial_reduce tree "
     "returns one block with the fold of all data (product of per-axis partitions is a partition of the grid). K2: sequential cumreduction equals the global scan for every chunking "
     "including zero-length blocks (seqScan_eq_scan); Blelloch: the interval checker is sound (blelloch_sound), dask's "
     "schedule — both while-loops and the max(2, 2**ceil(log2(n//2))) start — is accepted for EVERY n_vals "
     "(schedOk_all / blelloch_schedule_ok: invariants over powers of two), hence cumsum/cumprod(method='blelloch') = "
     "NumPy for every chunking and any number of blocks (cumsum_blelloch_eq_numpy, any monoid). Validated, not proved: float summation order (tolerance), var/std/moment (Chan "
-    "merge), nan-variants, argtopk (indices checked against the values), median/quantile glue, n-d min/max/mean/arg (the n-d plan is diffed against the real "
+    "merge), nan-variants, argtopk (indices checked against the values), median/quantile glue, n-d arg-reductions over several axes (the n-d plan is diffed against the real "
     "graph and executed by the driver on integer data)."
 )
 LEVEL_NOTE = (
@@ -690,6 +691,7 @@ def case_joint(ctx, inp):
 
 CASES = {"joint": case_joint, "plan": case_plan, "depth": case_depth, "blsched": case_blsched, "reduce": case_reduce,
          "arg": case_arg, "cum": case_cum, "topk": case_topk, "quant": case_quant}
+CASES = {k: U.pure_sources(v) for k, v in CASES.items()}
 
 
 # ---------------------------------------------------------------------------------------------
